@@ -74,8 +74,31 @@ def sh(cmd, cwd=None, env=None, timeout=None, input=None):
         return 124, out + "\n[timeout]"
 
 
+SHARDABLE = {"strip", "fmt", "docr", "sym", "oracle", "obscmp", "oraclefor", "charw", "full", "conv", "range", "tree", "doc", "attrs",
+             "render", "cmtlines"}
+
+
 def pipe(binary_args, lines, timeout=600, env=None):
-    """Feed lines to a line-oriented tool, return its output lines."""
+    """Feed lines to a line-oriented tool, return its output lines. The tools answer every line on its own
+    (one output line per input line, no state carried from line to line), so a long input is cut into chunks
+    that run as parallel processes; the modes that read a whole history (sched, cli) are never cut."""
+    if len(lines) >= 3000 and len(binary_args) >= 2 and binary_args[1] in SHARDABLE:
+        import concurrent.futures
+        n = max(2, min(14, len(lines) // 1500))
+        size = (len(lines) + n - 1) // n
+        chunks = [lines[i:i + size] for i in range(0, len(lines), size)]
+        with concurrent.futures.ThreadPoolExecutor(max_workers=len(chunks)) as ex:
+            parts = list(ex.map(lambda ch: _pipe1(binary_args, ch, timeout, env), chunks))
+        out = []
+        for ch, part in zip(chunks, parts):
+            if len(part) != len(ch):
+                raise RuntimeError("%s answered %d lines for %d inputs" % (binary_args, len(part), len(ch)))
+            out.extend(part)
+        return out
+    return _pipe1(binary_args, lines, timeout, env)
+
+
+def _pipe1(binary_args, lines, timeout=600, env=None):
     data = "\n".join(lines) + "\n" if lines else ""
     p = subprocess.run(binary_args, input=data, stdout=subprocess.PIPE, stderr=subprocess.PIPE,
                        text=True, timeout=timeout, env=env,
